@@ -508,6 +508,18 @@ func extractEd25519SigningKey(data []byte, offset, sigKeySize int) (types.Signin
 
 // extractKeyCertificate parses and extracts a KeyCertificate from the data.
 // Returns the certificate, remaining data, and any error encountered.
+// requireKeyTypes rejects a key certificate that does not declare the key
+// types a key-type-specific reader was written for: such a reader would
+// otherwise interpret the 384-byte key block with the wrong layout and
+// disagree with ReadKeysAndCert.
+func requireKeyTypes(keyCert *key_certificate.KeyCertificate, cryptoType, signingType int) error {
+	if keyCert.PublicKeyType() != cryptoType || keyCert.SigningPublicKeyType() != signingType {
+		return oops.Errorf("key certificate declares crypto type %d / signing type %d, expected %d / %d",
+			keyCert.PublicKeyType(), keyCert.SigningPublicKeyType(), cryptoType, signingType)
+	}
+	return nil
+}
+
 func extractKeyCertificate(data []byte, totalKeySize int) (*key_certificate.KeyCertificate, []byte, error) {
 	certData := data[totalKeySize:]
 	keyCert, remainder, err := key_certificate.NewKeyCertificate(certData)
@@ -579,6 +591,9 @@ func ReadKeysAndCertElgAndEd25519(data []byte) (keysAndCert *KeysAndCert, remain
 	keysAndCert.KeyCertificate, remainder, err = extractKeyCertificate(data, totalKeySize)
 	if err != nil {
 		return
+	}
+	if err = requireKeyTypes(keysAndCert.KeyCertificate, key_certificate.KEYCERT_CRYPTO_ELG, key_certificate.KEYCERT_SIGN_ED25519); err != nil {
+		return nil, nil, err
 	}
 
 	logElgEd25519Success(len(keysAndCert.Padding), len(remainder))
@@ -690,6 +705,9 @@ func ReadKeysAndCertX25519AndEd25519(data []byte) (keysAndCert *KeysAndCert, rem
 	keysAndCert.KeyCertificate, remainder, err = extractKeyCertificate(data, totalKeySize)
 	if err != nil {
 		return
+	}
+	if err = requireKeyTypes(keysAndCert.KeyCertificate, key_certificate.KEYCERT_CRYPTO_X25519, key_certificate.KEYCERT_SIGN_ED25519); err != nil {
+		return nil, nil, err
 	}
 
 	log.WithFields(logger.Fields{
